@@ -39,7 +39,7 @@ def entsFrom (p : Perm) (inc : Bool) : List Stmt → List Ent
   | .other :: r => entsFrom p inc r
   | .var ns as :: r => mkEnts p p inc (.var ns as) ++ entsFrom p inc r
   | .typeDef n as b :: r => mkEnts p p inc (.typeDef n as b) ++ entsFrom p inc r
-  | .iface k n ps :: r => mkEnts p p inc (.iface k n ps) ++ entsFrom p inc r
+  | .iface k n ps rs :: r => mkEnts p p inc (.iface k n ps rs) ++ entsFrom p inc r
   | .proc f n :: r => mkEnts p p inc (.proc f n) ++ entsFrom p inc r
 
 theorem foldl_step (l : List Stmt) : ∀ (s : St), s.perm = s.child →
@@ -71,8 +71,8 @@ theorem foldl_step (l : List Stmt) : ∀ (s : St), s.perm = s.child →
     | typeDef n as b =>
       have := ih { s with ents := s.ents ++ mkEnts s.perm s.child s.incontains (.typeDef n as b) } hs
       simpa [step, entsFrom, stmtEntries, List.append_assoc, ← hs] using this
-    | iface k n ps =>
-      have := ih { s with ents := s.ents ++ mkEnts s.perm s.child s.incontains (.iface k n ps) } hs
+    | iface k n ps rs =>
+      have := ih { s with ents := s.ents ++ mkEnts s.perm s.child s.incontains (.iface k n ps rs) } hs
       simpa [step, entsFrom, stmtEntries, List.append_assoc, ← hs] using this
     | proc f n =>
       have := ih { s with ents := s.ents ++ mkEnts s.perm s.child s.incontains (.proc f n) } hs
@@ -93,10 +93,6 @@ theorem stmtEntries_append (a b : List Stmt) : stmtEntries (a ++ b) = stmtEntrie
 
 
 /-! ### process_attribs -/
-
-/-- what `process_attribs` does to one entity when it sees the whole `attr_dict` `a` -/
-def upd (a : List (Str × Attr)) (e : Ent) : Ent :=
-  { e with perm := applyAttrs (wordsFor e.cat) e.name e.perm a }
 
 @[simp] theorem upd_cat (a : List (Str × Attr)) (e : Ent) : (upd a e).cat = e.cat := rfl
 @[simp] theorem upd_name (a : List (Str × Attr)) (e : Ent) : (upd a e).name = e.name := rfl
@@ -399,7 +395,7 @@ theorem mkEnts_declares (p : Perm) (inc : Bool) (d : Stmt) (hproc : isProc d = t
     simp only [declares, List.mem_singleton] at hx
     subst hx
     exact ⟨_, List.mem_singleton.2 rfl, rfl, rfl, by simp [declWords, pick, srcType]⟩
-  | iface k n ps =>
+  | iface k n ps rs =>
     cases k with
     | generic =>
       simp only [declares, List.mem_singleton] at hx
@@ -430,7 +426,7 @@ theorem mkEnts_names_sublist (p : Perm) (inc : Bool) (d : Stmt) :
   cases d with
   | var ns as => simp [mkEnts, declares, List.map_map, Function.comp_def]
   | typeDef n as b => simp [mkEnts, declares]
-  | iface k n ps => cases k <;> simp [mkEnts, declares, List.map_map, Function.comp_def]
+  | iface k n ps rs => cases k <;> simp [mkEnts, declares, List.map_map, Function.comp_def]
   | proc f n => cases inc <;> simp [mkEnts, declares]
   | bare q => simp [mkEnts, declares]
   | access a ns => simp [mkEnts, declares]
@@ -455,7 +451,7 @@ theorem entsFrom_names_sublist : ∀ (l : List Stmt) (p : Perm) (inc : Bool),
     | typeDef n as b =>
       simp only [entsFrom, List.map_append, List.flatMap_cons]
       exact List.Sublist.append (mkEnts_names_sublist p inc _) (ih p inc)
-    | iface k n ps =>
+    | iface k n ps rs =>
       simp only [entsFrom, List.map_append, List.flatMap_cons]
       exact List.Sublist.append (mkEnts_names_sublist p inc _) (ih p inc)
     | proc f n =>
@@ -482,24 +478,125 @@ theorem ctorPass_id (es : List Ent) (hn : (es.map (·.name)).Nodup) : ctorPass e
       exact absurd ht.1 (by decide)
   · simp [hc]
 
+theorem readKids_id (e : Ent) : readKids e = e := by simp [readKids, readGeneric]
+
+theorem map_readKids (es : List Ent) : es.map readKids = es := by
+  conv => rhs; rw [← List.map_id es]
+  exact List.map_congr_left (fun e _ => readKids_id e)
+
+theorem cat_item_or_var (c : Cat) : c ∈ itemPasses ∨ c = .var := by cases c <;> decide
+
+/-- the repaired deletion order on entities with pairwise different names: every entity sees the whole `attr_dict` -/
+theorem passesAfter_all (es : List Ent) (a : List (Str × Attr)) (hn : (es.map (·.name)).Nodup) :
+    (passesAfter es a).1 = es.map (upd a) := by
+  unfold passesAfter
+  have hn' : ((es.map (fun e => if e.cat ∈ itemPasses then upd a e else e)).map (·.name)).Nodup := by
+    rw [List.map_map]
+    have : ((fun e : Ent => e.name) ∘ fun e => if e.cat ∈ itemPasses then upd a e else e) = (fun e : Ent => e.name) := by
+      funext e; by_cases h : e.cat ∈ itemPasses <;> simp [h]
+    rw [this]; exact hn
+  have h := pass_fst .var a (es.map (fun e => if e.cat ∈ itemPasses then upd a e else e))
+    (fun n => !(es.any (fun e => decide (e.cat ∈ itemPasses) && decide (e.name = n))))
+    (by
+      intro e' he' hc'
+      obtain ⟨e, he, rfl⟩ := List.mem_map.1 he'
+      have hv : e.cat = .var := by by_cases h : e.cat ∈ itemPasses <;> simpa [h] using hc'
+      have hni : e.cat ∉ itemPasses := by rw [hv]; decide
+      simp only [hni, if_false, Bool.not_eq_true', List.any_eq_false, Bool.and_eq_true, decide_eq_true_eq, not_and]
+      intro e2 he2 hc2 heq
+      have := eq_of_nodup_map (·.name) es hn e2 e he2 he heq
+      subst this
+      exact hni hc2)
+    hn'
+  rw [h, List.map_map]
+  apply List.map_congr_left
+  intro e _
+  rcases cat_item_or_var e.cat with hc | hc
+  · have : e.cat ≠ .var := by intro h; rw [h] at hc; revert hc; decide
+    simp [hc, this]
+  · have hni : Cat.var ∉ itemPasses := by decide
+    simp [hni, hc]
+
+theorem passesV_all (v : DelOrder) (es : List Ent) (a : List (Str × Attr)) (hn : (es.map (·.name)).Nodup) :
+    (passesV v es a).1 = es.map (upd a) := by
+  cases v with
+  | perEntity => exact passes_all es a hn
+  | afterLoop => exact passesAfter_all es a hn
+
+@[simp] theorem specUpd_cat (on : Bool) (a : List (Str × Attr)) (e : Ent) : (specUpd on a e).cat = e.cat := by
+  cases on <;> rfl
+@[simp] theorem specUpd_name (on : Bool) (a : List (Str × Attr)) (e : Ent) : (specUpd on a e).name = e.name := by
+  cases on <;> rfl
+@[simp] theorem specUpd_perm (on : Bool) (a : List (Str × Attr)) (e : Ent) : (specUpd on a e).perm = e.perm := by
+  cases on <;> rfl
+
+theorem map_specUpd_names (on : Bool) (a : List (Str × Attr)) (es : List Ent) :
+    (es.map (specUpd on a)).map (·.name) = es.map (·.name) := by
+  rw [List.map_map]; apply List.map_congr_left; intro e _; simp
+
 /-- the entities of a whole unit, when every name is declared once -/
-theorem runUnit_ents (sub : Bool) (stmts : List Stmt) (hn : NamesOnce stmts) :
-    (runUnit sub stmts).ents =
-      (entsFrom (init sub).perm false stmts).map (upd (stmtEntries stmts)) := by
+theorem runUnit_ents (v : Variant) (sub : Bool) (stmts : List Stmt) (hn : NamesOnce stmts) :
+    (runUnit v sub stmts).ents =
+      (entsFrom (init sub).perm false stmts).map
+        (fun e => upd (stmtEntries stmts) (specUpd v.specLoop (stmtEntries stmts) e)) := by
   have h := foldl_step stmts (init sub) rfl
   have hnd : ((entsFrom (init sub).perm false stmts).map (·.name)).Nodup :=
     List.Sublist.nodup (entsFrom_names_sublist stmts _ _) hn
-  simp only [runUnit, finish]
+  simp only [runUnit, finish, map_readKids]
   rw [h.1, h.2]
   simp only [init, List.nil_append]
   simp only [init] at hnd
-  rw [passes_all _ _ hnd]
+  rw [passesV_all v.del _ _ (by rw [map_specUpd_names]; exact hnd), List.map_map]
   apply ctorPass_id
   rw [List.map_map]
-  have : ((fun e : Ent => e.name) ∘ upd (stmtEntries stmts)) = (fun e : Ent => e.name) := by
-    funext e; rfl
+  have : ((fun e : Ent => e.name) ∘ (upd (stmtEntries stmts) ∘ specUpd v.specLoop (stmtEntries stmts))) =
+      (fun e : Ent => e.name) := by
+    funext e; simp [Function.comp, upd_name]
   rw [this]; exact hnd
 
+
+theorem runUnit_ents_nodup (v : Variant) (sub : Bool) (stmts : List Stmt) (hn : NamesOnce stmts) :
+    ((runUnit v sub stmts).ents.map (·.name)).Nodup := by
+  rw [runUnit_ents v sub stmts hn, List.map_map]
+  have : ((fun e : Ent => e.name) ∘ fun e => upd (stmtEntries stmts) (specUpd v.specLoop (stmtEntries stmts) e)) =
+      (fun e : Ent => e.name) := by
+    funext e; simp [Function.comp, upd_name]
+  rw [this]
+  exact List.Sublist.nodup (entsFrom_names_sublist stmts _ _) hn
+
+/-- when every name is declared once there is no constructor: the entity list the export tables are built from is
+    the final one, in every variant -/
+theorem runUnit_pre (v : Variant) (sub : Bool) (stmts : List Stmt) (hn : NamesOnce stmts) :
+    (runUnit v sub stmts).pre = (runUnit v sub stmts).ents := by
+  have hnd := runUnit_ents_nodup v sub stmts hn
+  have h := foldl_step stmts (init sub) rfl
+  have hnd0 : ((entsFrom (init sub).perm false stmts).map (·.name)).Nodup :=
+    List.Sublist.nodup (entsFrom_names_sublist stmts _ _) hn
+  simp only [runUnit, finish, map_readKids] at hnd ⊢
+  rw [h.1, h.2] at hnd ⊢
+  simp only [init, List.nil_append] at hnd hnd0 ⊢
+  have hall := passesV_all v.del ((entsFrom (if sub = true then submoduleInit else moduleInit) false stmts).map
+      (specUpd v.specLoop (stmtEntries stmts))) (stmtEntries stmts) (by rw [map_specUpd_names]; exact hnd0)
+  have hid : ctorPass (passesV v.del ((entsFrom (if sub = true then submoduleInit else moduleInit) false stmts).map
+      (specUpd v.specLoop (stmtEntries stmts))) (stmtEntries stmts)).1 =
+      (passesV v.del ((entsFrom (if sub = true then submoduleInit else moduleInit) false stmts).map
+      (specUpd v.specLoop (stmtEntries stmts))) (stmtEntries stmts)).1 := by
+    apply ctorPass_id
+    rw [hall, List.map_map]
+    have : ((fun e : Ent => e.name) ∘ upd (stmtEntries stmts)) = (fun e : Ent => e.name) := by funext e; rfl
+    rw [this, map_specUpd_names]; exact hnd0
+  cases v.ctorEarly <;> simp [hid]
+
+theorem mem_exportsOf_nonprocs (es : List Ent) (t : Tab) (n : Str) (ht : t ≠ .procs) :
+    (t, n) ∈ exportsOf es ↔ ∃ e ∈ es, tabOf e.cat = t ∧ e.name = n ∧ e.perm ∈ exportWords := by
+  unfold exportsOf
+  simp only [List.mem_append, List.mem_map, List.mem_filter, Prod.mk.injEq, decide_eq_true_eq]
+  constructor
+  · rintro (⟨m, _, h1, _⟩ | ⟨e, ⟨he, _, hp⟩, h1, h2⟩)
+    · exact absurd h1.symm ht
+    · exact ⟨e, he, h1, h2, hp⟩
+  · rintro ⟨e, he, h1, h2, hp⟩
+    exact Or.inr ⟨e, ⟨he, by rw [h1]; exact ht, hp⟩, h1, h2⟩
 
 theorem mkEnts_sub_entsFrom (p : Perm) (inc : Bool) (d : Stmt) (post : List Stmt) :
     ∀ e ∈ mkEnts p p inc d, e ∈ entsFrom p inc (d :: post) := by
@@ -507,7 +604,7 @@ theorem mkEnts_sub_entsFrom (p : Perm) (inc : Bool) (d : Stmt) (post : List Stmt
   cases d with
   | var ns as => simp only [entsFrom]; exact List.mem_append_left _ he
   | typeDef n as b => simp only [entsFrom]; exact List.mem_append_left _ he
-  | iface k n ps => simp only [entsFrom]; exact List.mem_append_left _ he
+  | iface k n ps rs => simp only [entsFrom]; exact List.mem_append_left _ he
   | proc f n => simp only [entsFrom]; exact List.mem_append_left _ he
   | bare q => simp [mkEnts] at he
   | access a ns => simp [mkEnts] at he
@@ -580,7 +677,7 @@ theorem step_comm (s : St) (a : Attr) (ns : List Str) (x : Stmt) (hx : isAccess 
   | other => simp [step]
   | var ms as => simp [step]
   | typeDef m as b => simp [step]
-  | iface k m ps => simp [step]
+  | iface k m ps rs => simp [step]
   | proc f m => simp [step]
 
 theorem foldl_step_comm (a : Attr) (ns : List Str) : ∀ (mid : List Stmt) (s : St),
@@ -623,7 +720,7 @@ theorem mkEnts_perm_free (p : Perm) (inc : Bool) (d : Stmt)
     simp only [mkEnts, List.mem_singleton] at he
     subst he
     simp [pick_same, declPerm_other _ _ as h]
-  | iface k n ps =>
+  | iface k n ps rs =>
     cases k <;> simp only [mkEnts, List.mem_map, List.mem_singleton] at he
     · subst he; simp [pick_same]
     · obtain ⟨q, _, rfl⟩ := he; simp [pick_same]
@@ -664,7 +761,7 @@ theorem entsFrom_accessFree : ∀ (l : List Stmt) (p : Perm) (inc : Bool), Acces
       rcases he with he | he
       · exact mkEnts_perm_free p inc _ h.1 e he
       · exact ih p inc h.2 e he
-    | iface k n ps =>
+    | iface k n ps rs =>
       simp only [AccessFree] at h
       simp only [entsFrom, List.mem_append] at he
       rcases he with he | he
@@ -697,7 +794,7 @@ theorem stmtEntries_accessFree : ∀ (l : List Stmt), AccessFree l → ∀ x ∈
     | typeDef n as b => exact ih (by simp only [AccessFree] at h; exact h.2) x (by simpa [stmtEntries] using hx)
     | contains => exact ih (by simpa [AccessFree] using h) x (by simpa [stmtEntries] using hx)
     | other => exact ih (by simpa [AccessFree] using h) x (by simpa [stmtEntries] using hx)
-    | iface k n ps => exact ih (by simpa [AccessFree] using h) x (by simpa [stmtEntries] using hx)
+    | iface k n ps rs => exact ih (by simpa [AccessFree] using h) x (by simpa [stmtEntries] using hx)
     | proc f n => exact ih (by simpa [AccessFree] using h) x (by simpa [stmtEntries] using hx)
 
 theorem applyAttrs_noacc (w : List Perm) (n : Str) : ∀ (a : List (Str × Attr)) (p : Perm),
@@ -754,6 +851,25 @@ theorem ctorPass_perm (p : Perm) (es : List Ent) (h : ∀ e ∈ es, e.perm = p) 
     | none => exact h e0 he0
     | some t => exact h t (List.mem_of_find?_eq_some hf)
   · simp only [hc, if_false]; exact h e0 he0
+
+theorem passesAfter_noacc (es : List Ent) (a : List (Str × Attr)) (h : ∀ x ∈ a, x.2 = Attr.other) :
+    (passesAfter es a).1 = es := by
+  unfold passesAfter
+  have h1 : es.map (fun e => if e.cat ∈ itemPasses then upd a e else e) = es := by
+    conv => rhs; rw [← List.map_id es]
+    apply List.map_congr_left
+    intro e _
+    by_cases hc : e.cat ∈ itemPasses
+    · simp only [hc, if_true, id, upd, applyAttrs_noacc _ _ a _ h]
+    · simp [hc]
+  rw [h1]
+  exact (pass_noacc .var es _ (fun x hx => h x (List.mem_filter.1 hx).1)).1
+
+theorem passesV_noacc (v : DelOrder) (es : List Ent) (a : List (Str × Attr)) (h : ∀ x ∈ a, x.2 = Attr.other) :
+    (passesV v es a).1 = es := by
+  cases v with
+  | perEntity => exact passes_noacc _ es a h
+  | afterLoop => exact passesAfter_noacc es a h
 
 /-! ### PROTECTED -/
 
@@ -907,5 +1023,167 @@ theorem declPerm_spec (w : List Perm) (hu : Perm.pub ∈ w) (hr : Perm.priv ∈ 
     declPerm w inh A = (explicitOf A).getD inh := by
   have := two_loops w w hu hr hu hr A [] inh (by simpa using hone) hp (by simp)
   simpa [declPerm, explicitOf] using this
+
+/-! ### what `process_attribs` / `correlate` never touch: category, name, specific procedures -/
+
+/-- the part of an entity that only its declaration determines -/
+def skel (e : Ent) : Cat × Str × List Kid := (e.cat, e.name, e.procs)
+
+@[simp] theorem skel_upd (a : List (Str × Attr)) (e : Ent) : skel (upd a e) = skel e := rfl
+
+theorem pass_skel (c : Cat) : ∀ (es : List Ent) (a : List (Str × Attr)), (pass c es a).1.map skel = es.map skel := by
+  intro es
+  induction es with
+  | nil => intro a; rfl
+  | cons e r ih =>
+    intro a
+    by_cases hc : e.cat = c
+    · simp only [pass, hc, if_true, List.map_cons, ih]
+      rw [← hc]; rfl
+    · simp only [pass, hc, if_false, List.map_cons, ih]
+
+theorem passes_skel : ∀ (cs : List Cat) (es : List Ent) (a : List (Str × Attr)),
+    (passes cs es a).1.map skel = es.map skel := by
+  intro cs
+  induction cs with
+  | nil => intro es a; rfl
+  | cons c cs ih => intro es a; simp only [passes]; rw [ih, pass_skel]
+
+theorem passesV_skel (v : DelOrder) (es : List Ent) (a : List (Str × Attr)) :
+    (passesV v es a).1.map skel = es.map skel := by
+  cases v with
+  | perEntity => exact passes_skel _ es a
+  | afterLoop =>
+    simp only [passesV, passesAfter]
+    rw [pass_skel, List.map_map]
+    apply List.map_congr_left
+    intro e _
+    by_cases h : e.cat ∈ itemPasses <;> simp [h]
+
+theorem ctorPass_skel (es : List Ent) : (ctorPass es).map skel = es.map skel := by
+  unfold ctorPass
+  rw [List.map_map]
+  apply List.map_congr_left
+  intro e _
+  by_cases hc : e.cat = .iface
+  · simp only [Function.comp, hc, if_true]
+    cases es.find? (fun t => decide (t.cat = .type ∧ t.name = e.name)) with
+    | none => rfl
+    | some t => simp [skel, hc]
+  · simp [hc]
+
+/-- whatever the names, the access statements and the deletion order: the entity list of the result has the
+    categories, names and specific procedures the declarations created, in the same order -/
+theorem runUnit_skel (v : Variant) (sub : Bool) (stmts : List Stmt) :
+    (runUnit v sub stmts).ents.map skel =
+      (entsFrom (init sub).perm false stmts).map (fun e => skel (specUpd v.specLoop (stmtEntries stmts) e)) := by
+  have h := foldl_step stmts (init sub) rfl
+  simp only [runUnit, finish, map_readKids]
+  rw [ctorPass_skel, passesV_skel, h.1, h.2, List.map_map]
+  simp [init, Function.comp_def]
+
+/-! ### the repaired deletion order: every entity of the first loop sees the whole `attr_dict` -/
+
+theorem pass_keeps_other (c : Cat) : ∀ (es : List Ent) (a : List (Str × Attr)) (e : Ent), e ∈ es → e.cat ≠ c →
+    e ∈ (pass c es a).1 := by
+  intro es
+  induction es with
+  | nil => intro a e he; cases he
+  | cons x r ih =>
+    intro a e he hc
+    by_cases hx : x.cat = c
+    · simp only [pass, hx, if_true]
+      rcases List.mem_cons.1 he with rfl | he'
+      · exact absurd hx hc
+      · exact List.mem_cons_of_mem _ (ih _ e he' hc)
+    · simp only [pass, hx, if_false]
+      rcases List.mem_cons.1 he with rfl | he'
+      · exact List.mem_cons_self
+      · exact List.mem_cons_of_mem _ (ih _ e he' hc)
+
+theorem passesAfter_item (es : List Ent) (a : List (Str × Attr)) (e : Ent) (he : e ∈ es) (hc : e.cat ∈ itemPasses) :
+    upd a e ∈ (passesAfter es a).1 := by
+  unfold passesAfter
+  apply pass_keeps_other
+  · exact List.mem_map.2 ⟨e, he, by simp [hc]⟩
+  · intro h
+    have : (upd a e).cat = e.cat := rfl
+    rw [this] at h
+    rw [h] at hc
+    revert hc; decide
+
+/-- every declaration statement of a unit contributes its entities (built with *some* default in force) -/
+theorem mem_entsFrom : ∀ (l : List Stmt) (p0 : Perm) (inc0 : Bool) (d : Stmt), d ∈ l →
+    ∃ p inc, ∀ e ∈ mkEnts p p inc d, e ∈ entsFrom p0 inc0 l := by
+  intro l
+  induction l with
+  | nil => intro _ _ d hd; cases hd
+  | cons x r ih =>
+    intro p0 inc0 d hd
+    rcases List.mem_cons.1 hd with rfl | hd'
+    · exact ⟨p0, inc0, mkEnts_sub_entsFrom p0 inc0 d r⟩
+    · have happ := entsFrom_append [x] r p0 inc0
+      simp only [List.singleton_append] at happ
+      obtain ⟨p, inc, h⟩ := ih (lastBare p0 [x]) (inc0 || hasContains [x]) d hd'
+      exact ⟨p, inc, fun e he => by rw [happ]; exact List.mem_append_right _ (h e he)⟩
+
+/-- repaired deletion order: every entity of the first loop that carries the name `n` ends up with the one access
+    word the access statements give to `n` -/
+theorem afterLoop_same_name (early spec sub : Bool) (stmts : List Stmt) (n : Str) (q : Perm)
+    (hstmt : (entriesFor n (stmtEntries stmts)).filterMap accessWord = [q])
+    (hprot : Attr.acc .prot ∉ entriesFor n (stmtEntries stmts)) :
+    ∀ e0 : Ent, e0 ∈ entsFrom (init sub).perm false stmts → e0.cat ∈ itemPasses → e0.name = n →
+      upd (stmtEntries stmts) (specUpd spec (stmtEntries stmts) e0) ∈ (runUnit ⟨.afterLoop, early, spec⟩ sub stmts).attr ∧
+      (upd (stmtEntries stmts) (specUpd spec (stmtEntries stmts) e0)).perm = q := by
+  have h := foldl_step stmts (init sub) rfl
+  have hpre : (runUnit ⟨.afterLoop, early, spec⟩ sub stmts).attr =
+      (passesAfter ((entsFrom (init sub).perm false stmts).map (specUpd spec (stmtEntries stmts))) (stmtEntries stmts)).1 := by
+    simp only [runUnit, finish, passesV]
+    rw [h.1, h.2]; simp [init]
+  intro e0 he0 hc hn
+  refine ⟨by rw [hpre]; exact passesAfter_item _ _ _ (List.mem_map.2 ⟨e0, he0, rfl⟩) (by simpa using hc), ?_⟩
+  have hw : wordsFor e0.cat = applyWords := by
+    have : e0.cat ≠ .var := by intro hv; rw [hv] at hc; revert hc; decide
+    simp [wordsFor, this]
+  simp only [upd, specUpd_cat, specUpd_name, specUpd_perm, applyAttrs_eq_declPerm, hw, hn]
+  exact declPerm_one applyWords (by decide) (by decide) _ _ q hstmt hprot
+
+/-- the constructor step: every interface named like a type ends up with the permission of a type of that name -/
+theorem ctorPass_takes_type (es : List Ent) :
+    ∀ g ∈ ctorPass es, g.cat = .iface → (∃ t ∈ ctorPass es, t.cat = .type ∧ t.name = g.name) →
+      ∃ t ∈ ctorPass es, t.cat = .type ∧ t.name = g.name ∧ g.perm = t.perm := by
+  have keep : ∀ t ∈ es, t.cat = .type → t ∈ ctorPass es := by
+    intro t ht hc
+    unfold ctorPass
+    refine List.mem_map.2 ⟨t, ht, ?_⟩
+    have : t.cat ≠ .iface := by rw [hc]; decide
+    simp [this]
+  have back : ∀ t ∈ ctorPass es, t.cat = .type → t ∈ es := by
+    intro t ht hc
+    unfold ctorPass at ht
+    obtain ⟨t0, ht0, rfl⟩ := List.mem_map.1 ht
+    by_cases h0 : t0.cat = .iface
+    · exfalso
+      simp only [h0, if_true] at hc
+      cases hf : es.find? (fun t => decide (t.cat = .type ∧ t.name = t0.name)) with
+      | none => rw [hf] at hc; simp only at hc; rw [h0] at hc; cases hc
+      | some t1 => rw [hf] at hc; simp only at hc; cases hc
+    · simpa [h0] using ht0
+  intro g hg hgc ⟨t, ht, htc, htn⟩
+  unfold ctorPass at hg
+  obtain ⟨g0, hg0, rfl⟩ := List.mem_map.1 hg
+  by_cases h0 : g0.cat = .iface
+  · simp only [h0, if_true] at htn hgc ⊢
+    cases hf : es.find? (fun t => decide (t.cat = .type ∧ t.name = g0.name)) with
+    | none =>
+      exfalso
+      rw [hf] at htn; simp only at htn
+      have := List.find?_eq_none.1 hf t (back t ht htc)
+      simp [htc, htn] at this
+    | some t1 =>
+      have h1 := List.find?_some hf
+      simp only [decide_eq_true_eq] at h1
+      exact ⟨t1, keep t1 (List.mem_of_find?_eq_some hf) h1.1, h1.1, by simpa using h1.2, rfl⟩
+  · exfalso; simp only [h0, if_false] at hgc
 
 end Ford.Access
